@@ -2455,21 +2455,36 @@ def suite_simultaneous_reqs(tier, seed, backends=("sql", "kv")):
                 alone[k] = (sorted(e.id for e in got), oc)
             clients = [env.FakeClient("sim%d" % i) for i in range(3)]
             picks = [rng.randrange(len(pool)) for _ in range(n)]
-            res = await asyncio.gather(*[env.req(st, [pool[k]], sub_id="r%d" % i, client=clients[i % 3], timeout=30) for i, k in enumerate(picks)])
-            return picks, alone, [(sorted(e.id for e in got), oc) for got, oc in res]
+            res = await asyncio.gather(*[env.req(st, [pool[k]], sub_id="r%d" % i, client=clients[i % 3], timeout=90) for i, k in enumerate(picks)])
+            diag = {}
+            if any(oc == "silence" for _, oc in res):
+                import threading
+                try:
+                    diag = {"threads": threading.active_count(), "pool": st.db.pool.status() if backend == "sql" else None,
+                            "free_query_slots": getattr(getattr(st, "query_slot", None), "_value", None)}
+                except Exception as e:      # noqa
+                    diag = {"diag_error": repr(e)}
+            return picks, alone, [(sorted(e.id for e in got), oc) for got, oc in res], diag
         finally:
             await env.close(st)
             sc.close()
     for backend in backends:
         for n in ((14,) if tier == "quick" else (14, 22, 30)):
-            picks, alone, res = env.run(one(backend, n))
+            picks, alone, res, diag = env.run(one(backend, n))
             case = {"backend": backend, "simultaneous": n}
             s.case(case, nontrivial=n > 10)
             wrong = [(i, k) for i, (k, r) in enumerate(zip(picks, res)) if r != alone[k]]
+            if wrong and all(res[i][1] == "silence" for i, _ in wrong):
+                # "silence" is the one verdict that depends on real time (90 s without an answer): it is reported when it shows again
+                # on a second, fresh relay with as many simultaneous REQs (DESIGN 11.4: seen once, on a machine running ten checks and two Coq builds)
+                first = {"silent": len(wrong), "diag": diag}
+                picks, alone, res, diag = env.run(one(backend, n))
+                case = dict(case, first_attempt=first)
+                wrong = [(i, k) for i, (k, r) in enumerate(zip(picks, res)) if r != alone[k]]
             if wrong:
                 i, k = wrong[0]
                 s.violate("req-shed-or-truncated", dict(case, first_wrong=i), "%d of %d simultaneous REQs were not answered like the same REQ alone (REQ %d: %d events, %s; alone: %d events, %s)"
-                          % (len(wrong), n, i, len(res[i][0]), res[i][1], len(alone[k][0]), alone[k][1]), observed=[(len(r[0]), r[1]) for r in res])
+                          % (len(wrong), n, i, len(res[i][0]), res[i][1], len(alone[k][0]), alone[k][1]), observed={"answers": [(len(r[0]), r[1]) for r in res], "diag": diag})
     return s
 
 
